@@ -78,7 +78,15 @@ def s4_ids(fname, cwd, after=None, before=None, style="utc"):
     return ids, r, args + [fname]
 
 
-def patch_ties(blob, recs, submilli=False):
+POS2ID = {}   # file name -> {record offset: the EventRecordID its XML prints}, for files whose HEADER record numbers were rewritten
+
+
+def relabel(name, recs):
+    m = POS2ID.get(name)
+    return recs if not m else [(m[p], ft, p) for _rid, ft, p in recs]
+
+
+def patch_ties(blob, recs, submilli=False, header_ids=False):
     """copy the FILETIME of one record onto later ones (different positions, incl. across the out-of-order record) and
     recompute the chunk's record-data CRC32 and header CRC32. submilli: instead, make adjacent records disordered INSIDE
     one millisecond (+700 us stored before +200 us, +999.9 us before +0.1 us) and across a millisecond edge"""
@@ -98,6 +106,15 @@ def patch_ties(blob, recs, submilli=False):
         ft = recs[g[0]][1]
         for k in g[1:]:
             struct.pack_into("<Q", b, recs[k][2] + 16, ft)
+        if header_ids and max(g) < n - 1:     # the chunk header names its last record number and the evtx crate stops there: that one stays
+            # header_ids: the record NUMBER in the record header (not the EventRecordID inside the XML) of the tied records is
+            # rewritten so that it descends in file order, and the last group shares one number: file position, not the header
+            # number, is what "file order" means
+            hid = sorted((recs[k][0] for k in g), reverse=True)
+            if g == groups[-1]:
+                hid = [hid[0]] * len(hid)
+            for k, h in zip(sorted(g), hid):
+                struct.pack_into("<Q", b, recs[k][2] + 8, h)
     off = 0x1000
     while off + 0x200 <= len(b):
         if b[off:off + 8] == b"ElfChnk\x00":
@@ -121,6 +138,9 @@ def files(work, tier):
         out.append(("ties", "ties.evtx"))
         common.write_file(os.path.join(work, "submilli.evtx"), patch_ties(blob, recs, submilli=True))
         out.append(("submilli", "submilli.evtx"))
+        common.write_file(os.path.join(work, "tieids.evtx"), patch_ties(blob, recs, header_ids=True))
+        POS2ID["tieids"] = {pos: rid for rid, _ft, pos in recs}
+        out.append(("tieids", "tieids.evtx"))
     p = samples.evtx(work, "noevents")
     if p:
         out.append(("noevents", "noevents.evtx"))
@@ -153,9 +173,11 @@ def window_leg(res, tier, prop, work=None):
     try:
         for name, fname in files(work, tier):
             blob = open(os.path.join(work, fname), "rb").read()
-            recs = dump_records(blob)
+            recs = relabel(name, dump_records(blob))
             if not recs:
                 continue
+            if name == "tieids" and tier == "quick":
+                continue        # same times as "ties"; its windows are walked in the thorough tier
             bs = bounds_for([ft_to_us(ft) for _, ft, _ in recs], tier)
             allb = sorted({t + d for t in (ft_to_us(ft) for _, ft, _ in recs) for d in (-1, 0, 1)})
             # single bounds on / +-1 us of EVERY record time; pairs over an evenly spaced subset
@@ -202,7 +224,7 @@ def run(tier, seed, build=True):
             raise common.MachineryError("no evtx file obtainable")
         for name, fname in fl:
             blob = open(os.path.join(work, fname), "rb").read()
-            recs = dump_records(blob)
+            recs = relabel(name, dump_records(blob))
             ids, r, args = s4_ids(fname, work)
             res.count()
             res.distinct((name, "all"))
